@@ -194,6 +194,20 @@ def render_string(tree, g, top=True, depth=0):
     return "(%s)%s" % (inner, cnt_str(g))
 
 
+def render_implicit(tree, g):
+    """reaction-style spelling: every top-level part of the tree with a LEADING count g and the counts of what it
+    contains divided by g, parts joined by ' + ': (2, H), (1, O) with g = 0.5 -> '0.5H4 + 0.5O2'; a group part
+    -> '2C0.5H2 ...' (groups nested inside it keep the explicit parentheses)."""
+    parts = []
+    for ch in ([tree] if is_leaf(tree) else tree):
+        if is_leaf(ch):
+            c, k = ch
+            parts.append(cnt_str(g) + atom_str(k) + cnt_str(c / g))
+        else:
+            parts.append(cnt_str(g) + "".join(render_string(t, g, False, 1) for t in ch))
+    return " + ".join(parts)
+
+
 def render_list(pt, tree, g, top=True, depth=0):
     """nested list structure [(count, atom | structure), ...] of a tree."""
     if is_leaf(tree):
@@ -1318,6 +1332,8 @@ class Edges(object):
             return [(g, inner)], src
         if form == "string":
             return render_string(tree, g), None
+        if form == "string-implicit":
+            return render_implicit(tree, g), None
         if form == "list":
             return render_list(self.pt, tree, g), render_list_src(tree, g)
         if form == "dict":
@@ -1364,6 +1380,11 @@ class Edges(object):
                             kind = ("construct-string" if form == "string" else
                                     "regroup" if (wrap or not flat) else "permute")
                             add(kind, dict(tree=tj, g=g, form=form, wrap=wrap))
+                # leading counts: '2H + 2O0.5', '0.5H4 + 0.5O2', '2CH1.5 + ...' (the grammar's implicit group is a count
+                # followed by bare elements: only trees whose top-level parts are atoms or groups of atoms)
+                if is_leaf(tree) or all(is_leaf(ch) or all(is_leaf(x) for x in ch) for ch in tree):
+                    for g in (2, 0.5):
+                        add("construct-string", dict(tree=tj, g=g, form="string-implicit", wrap=False))
                 if flat:
                     add("construct-dict", dict(tree=tj, g=1, form="dict", wrap=False))
         return out
